@@ -127,3 +127,62 @@ def scope_programs(rng, n):
                ' write(acc); write(\' \'); write(keep[0]); write(keep[2]); }' % ('\n  '.join(body)))
         out.append((src, [str(iters)], 'scope'))
     return out
+
+
+# ----------------------------------------------------------------------------- C09 operator grid
+def grid_values(w):
+    H = 1 << (8 * w - 1)
+    return [0, 1, -1, 2, -2, 127, 128, 255, 256, -128, -129, H - 1, -H, -H + 1, 10, -10, 7]
+
+
+BINOPS = ['+', '-', '*', '/', '%', '==', '!=', '<', '<=', '>', '>=']
+
+
+def operator_programs(w):
+    """one program per operator/cast; operands come from the command line; the result is
+    observed in value position, in branch position and in defeat position, with operands in
+    several storage classes"""
+    progs = []
+
+    def three(expr_of, ty='int', name=''):
+        """expr_of(a, b) -> expression text using operand texts"""
+        shows = {'int': 'write(%s);', 'bool': 'write(%s);', 'byte': 'write((%s) is int);'}
+        lines = ['int ga = 0; int gb = 0;',
+                 'empty @is_you(int a, int b) {', '  ga = a; gb = b; int[] arr = [a, b]; byte ba = a is byte; byte bb = b is byte;']
+        forms = [('a', 'b'), ('ga', 'gb'), ('arr[0]', 'arr[1]'), ('a', 'gb')]
+        for x, y in forms:
+            e = expr_of(x, y)
+            lines.append('  ' + shows[ty] % e + " write(' ');")
+            cond = e if ty == 'bool' else '(%s) is bool' % e
+            lines.append('  if (%s) { write("T"); } else { write("F"); }' % cond)
+            lines.append('  try { !truth_is_defeat(%s); write("n"); } undo { write("d"); }' % cond)
+            lines.append('  while (%s) { write("w"); break; }' % cond)
+            if ty == 'bool':
+                lines.append('  bool v%d = %s; write(v%d); write(not v%d);' % (len(lines), e, len(lines), len(lines)))
+                lines.append('  if (not (%s)) { write("N"); }' % e)
+            lines.append("  write(';');")
+        lines.append('}')
+        progs.append((name, '\n'.join(lines)))
+
+    for op in BINOPS:
+        ty = 'int' if op in '+-*/%' else 'bool'
+        three(lambda x, y, op=op: '%s %s %s' % (x, op, y), ty, 'bin' + op)
+    three(lambda x, y: '-%s' % x, 'int', 'neg')
+    three(lambda x, y: '+%s' % x, 'int', 'pos')
+    three(lambda x, y: '(%s != 0) and (%s != 0)' % (x, y), 'bool', 'and')
+    three(lambda x, y: '(%s != 0) or (%s != 0)' % (x, y), 'bool', 'or')
+    three(lambda x, y: 'not (%s < %s)' % (x, y), 'bool', 'not')
+    three(lambda x, y: '(%s is bool) == (%s is bool)' % (x, y), 'bool', 'booleq')
+    three(lambda x, y: '(%s is bool) != (%s is bool)' % (x, y), 'bool', 'boolne')
+    three(lambda x, y: '%s is byte' % x, 'byte', 'int2byte')
+    three(lambda x, y: '(%s is byte) is int' % x, 'int', 'byte2int')
+    three(lambda x, y: '%s is bool' % x, 'bool', 'int2bool')
+    three(lambda x, y: '(%s is byte) is bool' % x, 'bool', 'byte2bool')
+    three(lambda x, y: '(%s is bool) is int' % x, 'int', 'bool2int')
+    three(lambda x, y: '(%s is bool) is byte' % x, 'byte', 'bool2byte')
+    three(lambda x, y: '(%s is byte) + (%s is byte)' % (x, y), 'int', 'byteadd')
+    three(lambda x, y: '((%s is byte) - (%s is byte)) is byte' % (x, y), 'byte', 'bytesub_trunc')
+    three(lambda x, y: '(%s * %s) / (%s + 3)' % (x, y, y), 'int', 'mixed')
+    progs.append(('strbool', 'empty @is_you(string s, const int[] xs) { write(s is bool); write(xs is bool); if (s is bool) { write("T"); } '
+                             'try { !truth_is_defeat(xs is bool); write("n"); } undo { write("d"); } write(s.length); write(xs.length); }'))
+    return progs
